@@ -34,6 +34,22 @@ Proof.
   rewrite select_spec, IH. reflexivity.
 Qed.
 
+(* only the latest registration counts *)
+Lemma active_keys_latest : forall history acc last, active_keys (history ++ [last]) acc = last.
+Proof.
+  induction history as [|sp r IH]; intros acc last; cbn [active_keys app].
+  - change registration_replaces with true. reflexivity.
+  - apply IH.
+Qed.
+
+Lemma select_latest_registration history last cls attr has_rrel :
+  select (active_keys (history ++ [last]) []) cls attr has_rrel = spec last cls attr has_rrel.
+Proof. rewrite active_keys_latest. apply select_spec. Qed.
+
+Lemma select_pass_latest_registration history last refs :
+  select_pass (active_keys (history ++ [last]) []) refs [] = map (fun r => spec last (fst (fst r)) (snd (fst r)) (snd r)) refs.
+Proof. rewrite active_keys_latest. apply select_pass_spec. Qed.
+
 (* non-vacuity: a concrete configuration where the third key wins *)
 Example select_example :
   select [[42;46;42]; [65;46;42]]%N [65]%N [98]%N false = Registered [65;46;42]%N.
